@@ -69,6 +69,9 @@ def run_limited(fn, *args):
 
 # ---- checksum shared with the model (Journal/Model.v: hash_step / hash_bytes / hash_Z / hash_fin) ----
 
+HASH_M = 2305843009213693951
+
+
 def h0(x):
     return (x, 0, 0)
 
@@ -81,12 +84,13 @@ def hash_step(h, x):
 
 
 def hash_bytes(h, data):
-    a, b, c = h
-    if not data:
-        return h
-    a_seq = list(itertools.accumulate(map(operator.add, data, itertools.repeat(1)), initial=a))
-    b_seq = list(itertools.accumulate(a_seq[1:], initial=b))
-    return (a_seq[-1], b_seq[-1], c + sum(b_seq) - b)
+    for off in range(0, len(data), 64):
+        blk = data[off:off + 64]
+        k = len(blk)
+        a = sum(blk) + k
+        b = sum(itertools.accumulate(blk)) + k * (k + 1) // 2
+        h = hash_step(h, a + (b << 16) + (k << 40))
+    return h
 
 
 def hash_Z(h, z):
@@ -97,7 +101,14 @@ def hash_Z(h, z):
 
 def hash_fin(h):
     a, b, c = h
-    return a + (b << 64) + (c << 144)
+    return (a + (b << 64) + (c << 144)) % HASH_M
+
+
+def obs_digest(o):
+    h = h0(3)
+    for x in o:
+        h = hash_Z(h, x)
+    return hash_fin(h)
 
 
 def hash_entries(entries):
@@ -354,19 +365,24 @@ def gen_case(seed, big_budget=6000):
     sim = Sim()
     sim.big_budget = big_budget if rng.random() < 0.5 else (big_budget * 40 if rng.random() < 0.06 else 400)
     style = rng.random()
-    if style < 0.2:      # long journals: the "every 10 removed entries" branch of deleteEntriesFrom
+    if style < 0.25:     # long journals: the "every 10 removed entries" branch of deleteEntriesFrom
         weights = [70, 1, 9, 5, 5, 5]
-        n_steps = rng.randrange(20, 60)
-    elif style < 0.35:   # kill heavy
+        n_steps = rng.randrange(20, 70)
+    elif style < 0.4:    # kill heavy
         weights = [40, 5, 15, 15, 12, 13]
         n_steps = rng.randrange(5, 30)
     else:
         weights = [45, 4, 11, 8, 12, 12]
         n_steps = rng.randrange(1, 30)
-    p_kill = 0.5 if 0.2 <= style < 0.35 else 0.12
+    p_kill = 0.5 if 0.25 <= style < 0.4 else 0.12
     p_reopen = 0.08
     steps = []
+    after_big = 0
     for _ in range(n_steps):
+        if sim.fsize > 65536:        # keep the cases with a huge file short (model evaluation cost)
+            after_big += 1
+            if after_big > 8:
+                break
         r = rng.random()
         if r < p_reopen:
             steps.append(('reopen',))
@@ -375,7 +391,7 @@ def gen_case(seed, big_budget=6000):
         op = gen_op(rng, sim, weights)
         if rng.random() < p_kill:
             total = n_prims(sim, op)
-            j = rng.randrange(0, total + 2)
+            j = rng.randrange(0, total + 1) if rng.random() < 0.9 else total + 1
             steps.append(('kill', op, j))
             sim_apply(sim, op, executed=min(j, total))
             sim.saved = True
@@ -458,115 +474,171 @@ def observe(J, j, path, prims_log):
             + [len(prims_log), hash_prims(prims_log)]), entries
 
 
+class _Stop(Exception):
+    """The history cannot be continued (file too large to observe)."""
+
+
+def _one_step(J, R, i, st):
+    """Executes step i on the implementation, appends monitor records to R, returns the observation."""
+    path, prims, stats = R['path'], R['prims'], R['stats']
+    ref, sets = R['ref'], R['sets']
+    if st[0] == 'op':
+        op = st[1]
+        if op[0] == 'setcommit':
+            sets.add(op[1])
+        prims.begin()
+        try:
+            do_op(R['j'], op)
+        finally:
+            log = prims.end()
+        apply_ref(ref, op)
+        ob, entries = observe(J, R['j'], path, log)
+        if entries is None:
+            return ob
+        if entries != ref:
+            R['problems'].append({'step': i, 'what': 'entries differ from the plain list after %s: file journal has %d, list has %d'
+                                                      % (op[0], len(entries), len(ref))})
+            ref[:] = entries
+        return ob
+    if st[0] == 'reopen':
+        R['j']._destroy()
+        R['j'] = None
+        R['j'] = J.FileJournal(path)
+        stats['reopens'] += 1
+        ob, entries = observe(J, R['j'], path, [])
+        if entries is None:
+            return ob
+        if entries != ref:
+            R['problems'].append({'step': i, 'what': 'entries differ from the plain list after close and reopen: '
+                                                      'file journal has %d, list has %d' % (len(entries), len(ref))})
+            ref[:] = entries
+        if R['j'].getRaftCommitIndex() not in (sets | {1}):
+            R['problems'].append({'step': i, 'what': 'commit index %r read back after reopen was never set' % (R['j'].getRaftCommitIndex(),)})
+        return ob
+    _, op, jn = st
+    if op[0] == 'setcommit':
+        sets.add(op[1])
+    old = list(ref)
+    prims.begin(budget=jn)
+    fired = False
+    try:
+        do_op(R['j'], op)
+    except Kill:
+        fired = True
+    finally:
+        log = prims.end()
+    stats['kills_fired' if fired else 'kills_late'] += 1
+    try:
+        R['j']._destroy()      # drop the dead object (closes the mapping; stores already hit the file)
+    except Exception:
+        pass
+    R['j'] = None
+    R['j'] = J.FileJournal(path)
+    ob, entries = observe(J, R['j'], path, log)
+    if entries is None:
+        return ob
+    # ---- the property: contiguous range of the previous entries containing what was to be kept
+    n = len(old)
+    if op[0] == 'add':
+        e = (cmd_bytes(op[1]), op[2], op[3])
+        ok = entries == old or entries == old + [e]
+        what = 'append is not all-or-nothing'
+    elif op[0] == 'clear':
+        ok = is_range_keeping(old, entries, 0, 0)
+        what = 'killed clear left something that is not a range of the old entries'
+    elif op[0] == 'delfrom':
+        ok = is_range_keeping(old, entries, 0, min(op[1], n))
+        what = 'killed deleteEntriesFrom(%d) lost an entry it was meant to keep' % op[1]
+    elif op[0] == 'delto':
+        ok = is_range_keeping(old, entries, min(op[1], n), n)
+        what = 'killed deleteEntriesTo(%d) lost an entry it was meant to keep' % op[1]
+    else:
+        ok = entries == old
+        what = 'killed %s changed the entries' % op[0]
+    if not ok:
+        rec = {'step': i, 'what': '%s: had %d entries, reopened with %d (kill after %d primitive writes)'
+                                  % (what, n, len(entries), len(log)),
+               'op': op[0], 'executed': len(log), 'fired': fired}
+        # D6 signature: the kill struck strictly inside deleteEntriesTo
+        if op[0] == 'delto' and fired and len(log) > 0:
+            R['d6'].append(rec)
+        else:
+            R['problems'].append(rec)
+    if R['j'].getRaftCommitIndex() not in (sets | {1}):
+        R['problems'].append({'step': i, 'what': 'commit index %r stored after a kill was never set' % (R['j'].getRaftCommitIndex(),)})
+    ref[:] = entries
+    return ob
+
+
 def run_history(J, steps, workdir):
     """Runs the history on a real FileJournal in workdir.  Returns dict:
-    expected (one observation per step), problems (monitor records), d6 (records with the D6
-    signature), stats."""
+    steps (the steps actually run: the history stops at the first step on which the implementation
+    raised, timed out or produced a file too large to read back), expected (one observation per step
+    run; [-2] = raised, [-3, size] = file too large, [-4] = timeout: none of them can equal a model
+    observation), problems (monitor records), d6 (records with the D6 signature), stats."""
+    import signal
     os.makedirs(workdir, exist_ok=True)
     path = os.path.join(workdir, 'journal.bin')
     for suffix in ('', '.meta', '.meta.tmp'):
         if os.path.exists(path + suffix):
             os.remove(path + suffix)
     prims = Prims(J)
+    stats = {'kills_fired': 0, 'kills_late': 0, 'max_len': 0, 'max_file': 0, 'reopens': 0, 'grow': 0, 'delfrom_ge10': 0}
+    R = {'path': path, 'prims': prims, 'stats': stats, 'ref': [], 'sets': set(), 'problems': [], 'd6': [], 'j': None}
     expected = []
-    problems = []
-    d6 = []
-    stats = {'kills_fired': 0, 'kills_late': 0, 'max_len': 0, 'max_file': 0, 'reopens': 0, 'grow': 0}
-    j = None
+    done = []
+    old_handler = None
     try:
-        j = J.FileJournal(path)
-        ref = []              # the plain list
-        sets = set()          # values passed to setRaftCommitIndex so far
+        old_handler = signal.signal(signal.SIGALRM, _alarm)
+        signal.alarm(CASE_TIMEOUT_S)
+    except Exception:
+        old_handler = None
+    try:
+        try:
+            R['j'] = J.FileJournal(path)
+        except Exception as e:
+            R['problems'].append({'step': -1, 'what': 'FileJournal() on a fresh path raised %r' % (e,)})
+            steps = []
         for i, st in enumerate(steps):
             size_before = os.path.getsize(path)
-            if st[0] == 'op':
-                op = st[1]
-                if op[0] == 'setcommit':
-                    sets.add(op[1])
-                prims.begin()
-                do_op(j, op)
-                log = prims.end()
-                apply_ref(ref, op)
-                ob, entries = observe(J, j, path, log)
-                if entries != ref:
-                    problems.append({'step': i, 'what': 'entries differ from the plain list after %s: file journal has %d, list has %d'
-                                                        % (op[0], len(entries), len(ref))})
-                    ref = list(entries)
-            elif st[0] == 'reopen':
-                old_commit_known = sets | {1}
-                j._destroy()
-                j = J.FileJournal(path)
-                stats['reopens'] += 1
-                ob, entries = observe(J, j, path, [])
-                if entries != ref:
-                    problems.append({'step': i, 'what': 'entries differ from the plain list after close and reopen: '
-                                                        'file journal has %d, list has %d' % (len(entries), len(ref))})
-                    ref = list(entries)
-                if j.getRaftCommitIndex() not in old_commit_known:
-                    problems.append({'step': i, 'what': 'commit index %r read back after reopen was never set' % (j.getRaftCommitIndex(),)})
-            else:
-                _, op, jn = st
-                if op[0] == 'setcommit':
-                    sets.add(op[1])
-                old = list(ref)
-                prims.begin(budget=jn)
-                fired = False
-                try:
-                    do_op(j, op)
-                except Kill:
-                    fired = True
-                log = prims.end()
-                stats['kills_fired' if fired else 'kills_late'] += 1
-                try:
-                    j._destroy()      # drop the dead object (closes the mapping; stores already hit the file)
-                except Exception:
-                    pass
-                j = J.FileJournal(path)
-                ob, entries = observe(J, j, path, log)
-                # ---- the property: contiguous range of the previous entries containing what was to be kept
-                n = len(old)
-                if op[0] == 'add':
-                    e = (cmd_bytes(op[1]), op[2], op[3])
-                    ok = entries == old or entries == old + [e]
-                    what = 'append is not all-or-nothing'
-                elif op[0] == 'clear':
-                    ok = is_range_keeping(old, entries, 0, 0)
-                    what = 'killed clear left something that is not a range of the old entries'
-                elif op[0] == 'delfrom':
-                    ok = is_range_keeping(old, entries, 0, min(op[1], n))
-                    what = 'killed deleteEntriesFrom(%d) lost an entry it was meant to keep' % op[1]
-                elif op[0] == 'delto':
-                    ok = is_range_keeping(old, entries, min(op[1], n), n)
-                    what = 'killed deleteEntriesTo(%d) lost an entry it was meant to keep' % op[1]
-                else:
-                    ok = entries == old
-                    what = 'killed %s changed the entries' % op[0]
-                if not ok:
-                    rec = {'step': i, 'what': '%s: had %d entries, reopened with %d (kill after %d primitive writes)'
-                                              % (what, n, len(entries), len(log)),
-                           'op': op[0], 'executed': len(log), 'fired': fired}
-                    # D6 signature: the kill struck strictly inside deleteEntriesTo
-                    if op[0] == 'delto' and fired and len(log) > 0:
-                        d6.append(rec)
-                    else:
-                        problems.append(rec)
-                if j.getRaftCommitIndex() not in (sets | {1}):
-                    problems.append({'step': i, 'what': 'commit index %r stored after a kill was never set' % (j.getRaftCommitIndex(),)})
-                ref = list(entries)
+            if st[0] != 'reopen' and st[1][0] == 'delfrom' and len(R['ref']) - st[1][1] >= 10:
+                stats['delfrom_ge10'] += 1
+            done.append(st)
+            try:
+                ob = _one_step(J, R, i, st)
+            except CaseTimeout:
+                expected.append([-4])
+                R['problems'].append({'step': i, 'what': 'step %s did not finish within %d s' % (st[0], CASE_TIMEOUT_S)})
+                break
+            except Exception as e:
+                expected.append([-2])
+                R['problems'].append({'step': i, 'what': '%s raised %s' % (
+                    'reopen' if st[0] == 'reopen' else ('reopen after a killed ' if st[0] == 'kill' else '') + st[1][0],
+                    repr(e)[:200])})
+                break
             expected.append(ob)
-            stats['max_len'] = max(stats['max_len'], len(ref))
+            if ob[0] == -3:
+                R['problems'].append({'step': i, 'what': 'journal file grew to %d bytes' % ob[1]})
+                break
+            stats['max_len'] = max(stats['max_len'], len(R['ref']))
             size_after = os.path.getsize(path)
             stats['max_file'] = max(stats['max_file'], size_after)
             if size_after > size_before:
                 stats['grow'] += 1
     finally:
+        try:
+            signal.alarm(0)
+            if old_handler is not None:
+                signal.signal(signal.SIGALRM, old_handler)
+        except Exception:
+            pass
         prims.uninstall()
-        if j is not None:
+        if R['j'] is not None:
             try:
-                j._destroy()
+                R['j']._destroy()
             except Exception:
                 pass
-    return {'expected': expected, 'problems': problems, 'd6': d6, 'stats': stats}
+    return {'steps': done, 'expected': expected, 'problems': R['problems'], 'd6': R['d6'], 'stats': stats}
 
 
 # ---- rendering as Gallina -------------------------------------------------------------------------
@@ -606,8 +678,10 @@ def v_step(st):
 
 def v_case(name, steps, expected):
     hs = '[' + ';\n  '.join(v_step(s) for s in steps) + ']'
-    ex = '[' + ';\n  '.join('[' + ';'.join(v_Z(x) for x in o) + ']' for o in expected) + ']'
-    return ('Definition h_%s : list step := %s.\nDefinition ex_%s : list (list Z) := %s.\n' % (name, hs, name, ex),
+    ex = '[' + '; '.join(v_Z(obs_digest(o)) for o in expected) + ']'
+    if len(hs) + len(ex) > MAX_LITERAL:
+        raise ValueError('case %s renders to %d characters of Gallina (limit %d)' % (name, len(hs) + len(ex), MAX_LITERAL))
+    return ('Definition h_%s : list step := %s.\nDefinition ex_%s : list Z := %s.\n' % (name, hs, name, ex),
             '(check_case ver h_%s ex_%s)' % (name, name))
 
 
